@@ -104,14 +104,18 @@ type world struct {
 	thrown  []string // controls handed to the VM's uncaught handler while serving
 }
 
-// barrier implements verif_sync(token): when armed for n requests, a handler parks there
-// until every request of the wave has either arrived or finished (a request that throws
-// before the sync point must not block the others). Not armed: a no-op.
+// barrier implements verif_sync(): when armed for n requests, a handler parks there until
+// every request of the wave has either arrived or finished (a request that throws before
+// the sync point must not block the others). Requests are counted, not identified: what a
+// handler passes in is request-derived and may be exactly what a defect corrupts. Not
+// armed: a no-op.
 type barrier struct {
-	mu     sync.Mutex
-	cond   *sync.Cond
-	expect int
-	seen   map[string]bool
+	mu       sync.Mutex
+	cond     *sync.Cond
+	expect   int
+	arrivals int
+	finished int
+	open     bool
 }
 
 func (b *barrier) arm(n int) {
@@ -119,40 +123,45 @@ func (b *barrier) arm(n int) {
 	if b.cond == nil {
 		b.cond = sync.NewCond(&b.mu)
 	}
-	b.expect = n
-	b.seen = map[string]bool{}
+	b.expect, b.arrivals, b.finished, b.open = n, 0, 0, false
 	b.mu.Unlock()
 }
 
 func (b *barrier) disarm() {
 	b.mu.Lock()
-	b.expect = 0
+	b.expect, b.open = 0, true
 	if b.cond != nil {
 		b.cond.Broadcast()
 	}
 	b.mu.Unlock()
 }
 
-func (b *barrier) mark(tok string) {
-	b.mu.Lock()
-	if b.expect > 0 && !b.seen[tok] {
-		b.seen[tok] = true
+func (b *barrier) check() {
+	if b.expect > 0 && !b.open && b.arrivals+b.finished >= b.expect {
+		b.open = true
 		b.cond.Broadcast()
+	}
+}
+
+// done is called by the harness when a request has been served.
+func (b *barrier) done() {
+	b.mu.Lock()
+	if b.expect > 0 {
+		b.finished++
+		b.check()
 	}
 	b.mu.Unlock()
 }
 
-func (b *barrier) arrive(tok string) {
+func (b *barrier) arrive() {
 	b.mu.Lock()
 	defer b.mu.Unlock()
 	if b.expect == 0 {
 		return
 	}
-	if !b.seen[tok] {
-		b.seen[tok] = true
-		b.cond.Broadcast()
-	}
-	for b.expect > 0 && len(b.seen) < b.expect {
+	b.arrivals++
+	b.check()
+	for b.expect > 0 && !b.open {
 		b.cond.Wait()
 	}
 }
@@ -185,9 +194,7 @@ func newWorld() (*world, error) {
 		return data.NewNullValue()
 	}})
 	w.vm.AddFunc(&goFunc{name: "verif_sync", nargs: 1, fn: func(a []data.Value) data.GetValue {
-		if len(a) == 1 {
-			w.barrier.arrive(a[0].AsString())
-		}
+		w.barrier.arrive()
 		return data.NewNullValue()
 	}})
 	w.vm.AddFunc(&goFunc{name: "verif_note", nargs: 1, fn: func(a []data.Value) data.GetValue {
